@@ -166,7 +166,7 @@ class Player:
 
     def op_cli(self, op):
         p = subprocess.run([sys.executable, "-m", "sqlfluff"] + list(op["args"]), stdin=subprocess.DEVNULL,
-                           stdout=subprocess.PIPE, stderr=subprocess.PIPE, text=True, timeout=300)
+                           stdout=subprocess.PIPE, stderr=subprocess.PIPE, text=True, timeout=400)
         res = {"rc": p.returncode, "stderr": p.stderr[-400:]}
         if op.get("json"):
             try:
